@@ -441,7 +441,7 @@ Section WithEnv.
                   end) [] (err ++ [line] ++ text) filled in
     match help_index args with
     | Some hi =>
-      if hi <? nargs then
+      if hi <=? nargs then
         let (text, interrupted) := print_help path c i true in
         mkResult (match interrupted with Some r => r | None => on_help policy end)
                  [] (err ++ text) filled
